@@ -34,6 +34,7 @@ import PyhamModel.Lemmas.Clustering
 import PyhamModel.Lemmas.NewickLemmas
 import PyhamModel.Lemmas.AggLemmas
 import PyhamModel.Lemmas.RoundtripLoaded
+import PyhamModel.Lemmas.Declared
 namespace Pyham.Props
 open Pyham
 
@@ -80,6 +81,14 @@ theorem C01_members_per_family (env : Env) (es : List Elem) (tops : List Node) (
     tops.length = es.length ∧
       ∀ i (h1 : i < tops.length) (h2 : i < es.length), (tops[i]).leaves.Perm (refsOf es[i]) :=
   topElems_families env es {} tops ps h hog
+
+/-- the extant genes of a loaded analysis are exactly the `<gene>` elements of the file, in file order,
+    each attached to the species that declares it and carrying all its cross-reference ids (C01 / C19) -/
+theorem C01_extant_genes_are_the_declared (T : STree) (nm : Naming) (inp : Input) (H : Ham)
+    (h : load T nm inp = .ok H) :
+    H.genes.map (fun g => (g.id, g.species, g.xrefs)) =
+      inp.species.flatMap (fun s => s.genes.map fun g => (g.id, s.name, g.xrefs)) :=
+  Pyham.C01_extant_genes_are_the_declared T nm inp H h
 
 /-! ## C03 — levels and duplication events are reconstructed by the MRCA rule -/
 
